@@ -215,7 +215,8 @@ def handle (line : String) : String :=
   | [["blk", which, l]] =>
     match l.toNat? with
     | some l =>
-      let ts := if which = "bh" then some (bhTensors l) else if which = "ct" then some (ctTensors l) else none
+      let ts := if which = "bh" then some (bhTensors l) else if which = "ct" then some (ctTensors l)
+        else if which = "bhold" then some (bhTensorsOld l) else if which = "ctold" then some (ctTensorsOld l) else none
       match ts with
       | some ts => if ts.isEmpty then "empty" else joinWith " | " (ts.map showBlkMat)
       | none => "bad-op"
@@ -223,7 +224,8 @@ def handle (line : String) : String :=
   | ["blkpath", which, l] :: vals =>
     match l.toNat?, mapAll? (parseAll? parseRat?) vals with
     | some l, some vals =>
-      let ts := if which = "bh" then some (bhTensors l) else if which = "ct" then some (ctTensors l) else none
+      let ts := if which = "bh" then some (bhTensors l) else if which = "ct" then some (ctTensors l)
+        else if which = "bhold" then some (bhTensorsOld l) else if which = "ctold" then some (ctTensorsOld l) else none
       match ts with
       | some ts =>
         if vals.length ≠ l ∨ vals.any (fun v => v.length ≠ blkOrder.length) then "bad-op" else
